@@ -84,6 +84,11 @@ def _mk_wrapper(sparse, usym, uherm):
 
 def _mat(op, sparse):
     A = np.array(op["A"], dtype=complex if op["cplx"] else float)
+    if sparse == "full":
+        # the way finite-element assembly delivers matrices: ONE stored pattern for every update of the history (here all n*n
+        # positions), entries that happen to be zero are stored explicitly; only the values change between updates
+        n = A.shape[0]
+        return sps.csc_matrix((A.T.ravel().copy(), np.tile(np.arange(n), n), np.arange(0, n * n + 1, n)), shape=(n, n))
     return sps.csc_matrix(A) if sparse else vary_layout(A, (A.shape, float(np.abs(A).sum())))   # C / Fortran order / transposed view
 
 
@@ -659,6 +664,10 @@ def build_histories(ctx):
             n = rng.choice([1, 2, 3, 3, 4, 4, 5, 5, 6])
             hs.append(("rand", gen_history(rng, n, rng.randint(3, 40 if t % 4 == 0 else 14), sparse=rng.random() < 0.3,
                                            sym_only=(t % 15 == 0), real_only=(t % 3 == 1))))
+    # half of the sparse histories keep one stored pattern (with explicit zeros) over all their updates
+    for _, h in hs:
+        if h["sparse"] is True and rng.random() < 0.5:
+            h["sparse"] = "full"
     return hs
 
 
